@@ -229,18 +229,23 @@ Section TrieInv.
   Lemma addbo_spec : forall acc c, addbo acc c = acc + bo_of M c.
   Proof. intros. unfold addbo. rewrite <- real_bo. destruct (alookup reals c); lia. Qed.
 
+  Lemma spec_hit' : forall w c k p q, M (w :: firstn k c) = Some (p, q) -> spec M c w k = p.
+  Proof. intros w c k p q H. destruct k; cbn [spec]; rewrite H; reflexivity. Qed.
+
   Lemma spec_blank : forall w c n b p q, (1 <= b)%nat -> M (w :: firstn (b - 1) c) = Some (p, q) ->
     (forall i, (b <= i < b + n)%nat -> M (w :: firstn i c) = None) -> (b - 1 + n <= length c)%nat ->
     spec M c w (b - 1 + n) = fold_left addbo (map (fun i => firstn i c) (seq b n)) p.
   Proof.
     intros w c n. induction n as [|n IH]; intros b p q Hb Hhit Hmiss Hlen.
-    - rewrite Nat.add_0_r. cbn [seq map fold_left]. destruct (b - 1)%nat eqn:E; cbn [spec]; rewrite <- ?E, Hhit; reflexivity.
+    - rewrite Nat.add_0_r. cbn [seq map fold_left]. apply (spec_hit' w c (b - 1)%nat p q Hhit).
     - replace (b - 1 + S n)%nat with (S (b - 1 + n)) by lia. cbn [spec].
       replace (S (b - 1 + n)) with (b + n)%nat by lia.
       rewrite (Hmiss (b + n)%nat) by lia.
       rewrite seq_S, map_app, fold_left_app. cbn [map fold_left]. rewrite addbo_spec.
-      rewrite <- (IH b p q Hb Hhit) by (try lia; intros i Hi; apply Hmiss; lia).
-      replace (b + n - 1)%nat with (b - 1 + n)%nat by lia. lia.
+      replace (b + n - 1)%nat with (b - 1 + n)%nat by lia.
+      assert (IH' : spec M c w (b - 1 + n) = fold_left addbo (map (fun i => firstn i c) (seq b n)) p).
+      { apply (IH b p q Hb Hhit); [intros i Hi; apply Hmiss; lia|lia]. }
+      rewrite IH'. apply Z.add_comm.
   Qed.
 
   Lemma based_on_spec : forall B j, M (firstn 1 B) <> None -> (1 <= j)%nat ->
@@ -272,12 +277,12 @@ Section TrieInv.
     unfold targets. cbn [tl length].
     assert (Hfb : firstn b (w :: c) = w :: firstn (b - 1) c) by (destruct b; [lia|cbn [firstn]; f_equal; f_equal; lia]).
     rewrite Hfb in EM.
-    replace (length c) with (b - 1 + (S (length c) - b))%nat at 3 by lia.
-    rewrite (spec_blank w c (S (length c) - b) b p q) by
-      (try lia; try exact EM;
-       intros i Hi; destruct (Nat.eq_dec i (length c)) as [->|Hne];
-       [rewrite firstn_all; exact HMB | specialize (Hm (S i) ltac:(lia)); cbn [firstn] in Hm; exact Hm]).
-    reflexivity.
+    pose proof (spec_blank w c (S (length c) - b) b p q ltac:(lia) EM) as Hs.
+    replace (b - 1 + (S (length c) - b))%nat with (length c) in Hs by lia.
+    rewrite Hs; [reflexivity| |lia].
+    intros i Hi. destruct (Nat.eq_dec i (length c)) as [->|Hne].
+    - rewrite firstn_all. exact HMB.
+    - specialize (Hm (S i) ltac:(lia)). cbn [firstn] in Hm. exact Hm.
   Qed.
 
   Lemma has_child_iff : forall k, has_child k = true <-> exists x, T (k ++ [x]) <> None.
@@ -391,5 +396,5 @@ Proof.
   rewrite load_trie_unfold in Hload.
   destruct (forallb _ _) eqn:Hc; cbn [negb] in Hload; [|discriminate].
   injection Hload as <-.
-  apply (trie_table_inv N unigrams higher Hlen Hwords Hc).
+  eapply trie_table_inv; eassumption.
 Qed.
